@@ -15,7 +15,7 @@ def jsonnl(n, tier):
              hooks=[r'^_ZN5quill2v96detail8JsonSinkI5TBaseE21generate_json_message=vh_gen_json', r'^_ZN5quill2v910StreamSink9write_logE=vh_stream_write', r'^_ZN5TBaseC2Ev=vh_tbase_ctor'],
              forbid=[r'^_ZN5quill2v910StreamSinkD[012]Ev$', r'basic_memory_bufferIcLm500ESaIcEE4grow'],
              models=['m_throw.c', 'm_env.c'], libmodels=['m_string.c', 'm_stl.c'], unwind=n + 4, cdefs=['VLL_STR_NOGROW'], tier=tier, timeout=600,
-             bounds='every message template of 0..%d bytes over {a, space, newline}' % n,
+             bounds='every message template of exactly %d bytes over {a, space, newline}' % n,
              what='real detail::JsonSink::write_log: the template handed to the JSON line equals the original with every newline replaced by one space (same length, nothing else touched), the line is generated once and handed down once, closed by "}" and a newline')
 QUERIES = [jsonnl(4, 'dev'), strip(5, 'dev'), strip(7, 'dev')] + [det(n, 'quick') for n in (2, 3, 4, 5, 6, 7)] + [det(8, 'thorough', 1700), det(9, 'thorough', 1700)]
 BOUNDS = 'templates <= 8 (quick) / 10 (thorough) bytes over a 6-symbol alphabet'
